@@ -133,14 +133,18 @@ def float_norm(words):
 
 
 def reparse_cause(msg, text):
-    """root cause of 'printed text does not parse': look at the printed line the error points to"""
+    """root cause of 'printed text does not parse': look at the printed module field the error points into"""
     m = re.search(r":(\d+):(\d+):", msg)
     line = ""
     if m:
         ls = text.split("\n")
         k = int(m.group(1)) - 1
         if 0 <= k < len(ls):
-            line = ls[k].strip()
+            off = sum(len(x) + 1 for x in ls[:k]) + int(m.group(2)) - 1
+            starts = [x.start() for x in re.finditer(r"\((data|export|import|func|global|memory|table|type|elem|start)\b", text[:off + 1])]
+            # the field (indentation level 1) that contains the error position
+            starts = [x for x in starts if x == 0 or text[x - 1] == "\t" and (x < 2 or text[x - 2] != "\t")]
+            line = text[starts[-1]:starts[-1] + 200].split("\n")[0] if starts else ls[k].strip()
     if re.match(r"\(data\$", line):
         return "data-name-no-space"
     if re.match(r"\(export \"", line):
